@@ -21,12 +21,19 @@ META = {
                   "offset, plus every single type-word / length-prefix corruption of sequences <= 2 over 17 / 5 values; "
                   "each scenario executed on the real code with 3 encoder / byte-order combinations and compared with "
                   "the model's prediction; contract evaluated by TLC on every untruncated, corrupted, drifting, sampled "
-                  "and random (0..8 arguments, extreme values, 64 KiB strings) execution.",
+                  "and random (0..8 arguments, extreme values, 64 KiB strings) execution, and on directed executions of "
+                  "ASCII-typed / invalid UTF-8-typed strings that start with or contain EF BB BF, FF FE, FE FF, lone bytes "
+                  ">= 0x80 followed by 7-bit text (alone and between other arguments, every encoder and byte order).",
     "level_note": "Trusted: TLC, the driver's value generation and projection, core::fmt / ryu for the decimal text of the "
                   "ORIGINAL numbers (documented exception: TLC integers are 32 bit). Narrowed: text judged only for "
                   "untruncated payloads; float text may be any of Display / Debug / LowerExp / JSON of the original value; "
-                  "text of NaN / inf, of strings with bytes >= 0x80 that are not valid UTF-8 in a UTF-8 string and of any "
-                  "byte >= 0x80 in an ASCII string is free; a truncated list may yield ANY prefix; booleans are 0/1 of "
+                  "text of NaN / inf is free; HOW a byte >= 0x80 of an ASCII-typed string (or of a UTF-8-typed string that is "
+                  "not valid UTF-8, or is longer than 512 bytes) is shown is free, only the 7-bit rule is judged for such "
+                  "strings: deleting every byte outside 0x20..0x7e from the rendered text region must give the 7-bit "
+                  "characters of the values (one trailing NUL removed, CR/LF/TAB as spaces) in order, none lost, none "
+                  "invented - a rendering that only drops or re-maps bytes >= 0x80 (e.g. a stripped UTF-8 BOM: EF BB BF 'ok' "
+                  "shown as 'ok') stays outside the judged domain, and so do regions with a non-finite float, more than 2 "
+                  "floats, or more than 256 KiB of text; a truncated list may yield ANY prefix; booleans are 0/1 of "
                   "width 1, integers 8..64 bit, floats 32/64 bit (128-bit integers, 16-bit floats, VARI/FIXP, SCOD hex/bin "
                   "are outside the statement). The serde encoder exists for the native byte order only.",
 }
@@ -69,6 +76,27 @@ def binding_selftest(ctx, cases, accepted, known_cases):
     put(a); expect.add(10 ** 6)                                       # an argument lost in an untruncated run
     a = json.loads(json.dumps(cases[num[0]])); a[0]["case"] = 10 ** 6 + 1
     put(a[:1]); expect.add(10 ** 6 + 1)                               # event deleted
+    # 7-bit rule: a lone ASCII-typed string that starts with bytes >= 0x80 followed by 7-bit text.  Re-rendering its high
+    # bytes by other characters above U+007F must stay accepted; losing / inventing / changing one 7-bit character must not
+    def weak_single(evs):
+        e = evs[1] if len(evs) == 2 else None
+        return (e and e["ev"] == "codec" and e["mode"] == "full" and len(e["args_in"]) == 1 and len(e["args_out"]) == 1
+                and e["args_in"][0]["kind"] == "strA" and has_high_and_7bit(e["args_in"][0]) and e["args_in"][0]["raw"][0] >= 0x80
+                and any(0x21 <= b <= 0x7e for b in e["text"]) and len(e["text"]) < 200)
+    weak = [k for k in accepted if weak_single(cases[k])][:4]
+    if len(weak) < 4:
+        raise c.ToolError("binding self-test: not enough accepted single ASCII-typed strings with high bytes and 7-bit text")
+    a = json.loads(json.dumps(cases[weak[0]]))
+    a[1]["text"] = [x for b in a[1]["text"] for x in ([b] if b < 0x80 else [0xef, 0xbf, 0xbd])]   # high bytes shown differently
+    put(a)
+    a = json.loads(json.dumps(cases[weak[1]])); t = a[1]["text"]
+    i = max(j for j, b in enumerate(t) if 0x21 <= b <= 0x7e); del t[i]                             # a 7-bit character lost
+    put(a); expect.add(weak[1])
+    a = json.loads(json.dumps(cases[weak[2]])); a[1]["text"].insert(0, ord("?"))                   # a 7-bit character invented
+    put(a); expect.add(weak[2])
+    a = json.loads(json.dumps(cases[weak[3]])); t = a[1]["text"]
+    i = min(j for j, b in enumerate(t) if 0x21 <= b <= 0x7e); t[i] = t[i] ^ 1 if t[i] ^ 1 in range(0x21, 0x7f) else t[i] ^ 2   # ... changed
+    put(a); expect.add(weak[3])
     kf_case = sorted(known_cases)[:1]
     for k in kf_case:
         put(cases[k])
@@ -84,7 +112,33 @@ def binding_selftest(ctx, cases, accepted, known_cases):
         raise c.ToolError("binding self-test failed: with the known-finding switch off VerbTrace rejected %s, expected %s" % (
             sorted(v2.violations), sorted(expect | set(kf_case))))
     ctx.extra["binding_selftest"] = {"corrupted_cases": len(expect), "rejected": len(v.violations), "untouched_accepted": True,
+                                     "high_bytes_rerendered_accepted": True,
                                      "kf_case_rejected_with_switch_off": len(kf_case)}
+
+
+def has_high_and_7bit(a):
+    raw = a["raw"][:-1] if a["raw"] and a["raw"][-1] == 0 else a["raw"]
+    return a["kind"] in ("strU", "strA") and any(b >= 0x80 for b in raw) and any(0x20 <= b <= 0x7e or b in (9, 10, 13) for b in raw)
+
+
+def seven_bit_counts(cases):
+    """vacuity bookkeeping (no verdict): untruncated executions with a string argument that has bytes >= 0x80 AND 7-bit
+    characters - the inputs the 7-bit rule of VerbTrace.tla has something to say about (UTF-8-typed ones only if the
+    string is not valid UTF-8 or longer than Utf8Max)"""
+    n = {"strA_single_arg": 0, "strA_multi_arg": 0, "strU_pfa": 0, "src_tlc": 0, "src_random": 0, "src_directed": 0}
+    for evs in cases.values():
+        if len(evs) != 2 or evs[1]["ev"] != "codec" or evs[1]["mode"] != "full":
+            continue
+        e = evs[1]
+        ks = {a["kind"] for a in e["args_in"] if has_high_and_7bit(a)}
+        if not ks:
+            continue
+        if "strA" in ks:
+            n["strA_single_arg" if len(e["args_in"]) == 1 else "strA_multi_arg"] += 1
+        if "strU" in ks:
+            n["strU_pfa"] += 1
+        n["src_" + evs[0]["hdr"].get("src", "?")] = n.get("src_" + evs[0]["hdr"].get("src", "?"), 0) + 1
+    return n
 
 
 def replay(ctx):
@@ -133,7 +187,7 @@ def check(ctx):
     # (c,d) replay on the real encoders / decoder, random executions
     trace = ctx.path("trace.ndjson")
     nrand = 1500 if quick else 20000
-    info = drive(binp, ["--scenarios", scn, "--random", str(nrand), "--huge", "9" if quick else "40", "--seed", str(ctx.seed),
+    info = drive(binp, ["--scenarios", scn, "--random", str(nrand), "--huge", "9" if quick else "40", "--directed", "1", "--seed", str(ctx.seed),
                         "--sample-every", "60" if quick else "400"], trace)
     # (e) TLC validates the recorded executions against the contract (known-finding action switched by known_findings.jsonl)
     kf = c.kf_switches("C18", [KF])
@@ -142,7 +196,7 @@ def check(ctx):
     v = c.validate_trace(ctx, "verb", "VerbTrace.tla", trace, consts=kf, timeout=3000, xmx="12g")
     ctx.add_tlc("trace-validation", v.res)
     cases = c.split_cases(trace)
-    ctx.evaluations = info["replayed"] + nrand
+    ctx.evaluations = info["replayed"] + nrand + info["directed"]
     ctx.traces_validated = info["cases"] - len(v.violations)
     ctx.rule = ("an evaluation = one encode -> (truncate | corrupt) -> decode -> render run of the real code for one argument "
                 "sequence, encoder and byte order; non-trivial = at least one argument was decoded; TLC scenarios are distinct "
@@ -161,14 +215,19 @@ def check(ctx):
     ctx.extra["drift"] = info["drift"]
     ctx.extra["skipped_not_encodable"] = info["skipped_not_encodable"]
     ctx.extra["random_cases"] = nrand
+    ctx.extra["directed_cases"] = info["directed"]
+    ctx.extra["seven_bit_rule"] = seven_bit_counts(cases)
     ctx.extra["trace_events"] = info["lines"]
     ctx.extra["paths_hit"] = info["hits"]
     ctx.extra["design_conformance"] = {"steps": info["replayed"], "mismatches": info["drift"],
                                        "what": "decoded (type word, slice offset, slice length, raw bytes) against the model's prediction"}
     need = ["bool1", "sint1", "sint2", "sint4", "sint8", "uint1", "uint2", "uint4", "uint8", "floa4", "floa8", "strU0", "strA0", "rawd0",
-            "mode_full", "mode_trunc", "mode_corrupt", "enc_serde_le", "enc_pfa_le", "enc_pfa_be"]
+            "mode_full", "mode_trunc", "mode_corrupt", "enc_serde_le", "enc_pfa_le", "enc_pfa_be",
+            "directed_strA_serde_le", "directed_strA_pfa_le", "directed_strA_pfa_be", "directed_strU_pfa_le", "directed_strU_pfa_be",
+            "strA_starts_efbbbf", "strA_starts_fffe", "strA_starts_feff", "strA_starts_other_high", "strA_high_after_7bit"]
     missing = [n for n in need if not info["hits"].get(n)]
-    if missing:
+    missing += ["seven_bit_rule:" + k for k, n in ctx.extra["seven_bit_rule"].items() if not n]
+    if missing and not v.violations:      # (a broken tree must end in exit 1, not in a tool error)
         raise c.ToolError("vacuity: paths never exercised: %s" % missing)
     some = list(cases)
     for k in some[:1] + some[len(some) // 2:len(some) // 2 + 1] + some[-1:]:
@@ -185,7 +244,8 @@ def check(ctx):
         ctx.violation("case %d rejected by VerbTrace at line %s" % (k, r[1] if r else "?"),
                       {"case": k, "trace": evs if len(short) < 20000 else [evs[0], {"truncated_event": short[:20000]}],
                        "how": "bin/check C18 --replay <this file>"})
-    binding_selftest(ctx, cases, [k for k in cases if k not in v.violations and k not in v.known], set(v.known))
+    if not v.violations:
+        binding_selftest(ctx, cases, [k for k in cases if k not in v.violations and k not in v.known], set(v.known))
     ctx.assumptions = ["TLC and CommunityModules are correct",
                        "driver value generation and projection (slice offsets from pointers, byte copies) are correct",
                        "core::fmt / ryu render the ORIGINAL numbers correctly (expected decimal texts come from the driver)"]
